@@ -135,9 +135,9 @@ func (v *execView) foldKind(t *T) (ptrKind, bool) {
 	}
 	var rw byte
 	switch t.S {
-	case v.c.a.ReadFold.String():
+	case fnKey(v.c.a.ReadFold):
 		rw = 'R'
-	case v.c.a.WriteFold.String():
+	case fnKey(v.c.a.WriteFold):
 		rw = 'W'
 	default:
 		return ptrKind{}, false
@@ -341,15 +341,23 @@ func (c *simCtx) posOf(e *Event) string {
 
 // instrPos finds a usable position for an instruction (loads often have none).
 func instrPos(in ssa.Instruction) token.Pos {
+	return instrPosD(in, 0)
+}
+
+func instrPosD(in ssa.Instruction, depth int) token.Pos {
 	if in.Pos().IsValid() {
 		return in.Pos()
 	}
-	var ops []*ssa.Value
-	for _, op := range in.Operands(ops) {
-		if op != nil && *op != nil {
-			if i, ok := (*op).(ssa.Instruction); ok {
-				if p := instrPos(i); p.IsValid() {
-					return p
+	if depth < 6 {
+		if _, isPhi := in.(*ssa.Phi); !isPhi {
+			var ops []*ssa.Value
+			for _, op := range in.Operands(ops) {
+				if op != nil && *op != nil {
+					if i, ok := (*op).(ssa.Instruction); ok {
+						if p := instrPosD(i, depth+1); p.IsValid() {
+							return p
+						}
+					}
 				}
 			}
 		}
@@ -648,7 +656,7 @@ func ruleFoldArg(w *World, r *RuleResult) {
 			if e.Kind != "call" || (e.Callee != c.a.ReadFold && e.Callee != c.a.WriteFold) {
 				continue
 			}
-			res := &T{Op: "call", S: e.Callee.String(), A: e.Args}
+			res := &T{Op: "call", S: fnKey(e.Callee), A: e.Args}
 			k, ok := v.foldKind(res)
 			key := fmt.Sprintf("%s/%s#%d", info.label, e.Callee.Name(), i)
 			if !ok {
